@@ -148,7 +148,7 @@ def inventory(flavour):
     c = ctx
     depth = 0
     while c is not None:
-        funcs = getattr(c, '_functions', None) or {}
+        funcs = layer_functions(c)
         for name in sorted(funcs):
             for fd in sorted(funcs[name], key=seams.fd_key):
                 params = []
@@ -186,6 +186,63 @@ def inventory(flavour):
         depth += 1
     _cache[key] = inv
     return inv
+
+
+def layer_functions(ctx):
+    """{name: collection of FunctionDefinition} registered in this context's
+    OWN layer.  Reads the private table when it has its usual name and
+    otherwise finds it structurally (a dict attribute whose values are
+    collections of FunctionDefinition), so that a rename of the attribute or
+    a change of container does not break the harness."""
+    from yaql.language import specs
+    t = getattr(ctx, '_functions', None)
+    if isinstance(t, dict):
+        return t
+    try:
+        attrs = vars(ctx).values()
+    except TypeError:
+        return {}
+    for v in attrs:
+        if isinstance(v, dict) and v:
+            ok = True
+            for x in v.values():
+                if not isinstance(x, (set, frozenset, list, tuple)) or not all(
+                        isinstance(y, specs.FunctionDefinition) for y in x):
+                    ok = False
+                    break
+            if ok:
+                return v
+    return {}
+
+
+def known_function_names(ctx):
+    """Every function name registered anywhere in the chain of ctx."""
+    names = set()
+    c = ctx
+    while c is not None:
+        names.update(layer_functions(c))
+        c = c.parent
+    return sorted(names)
+
+
+def public_snapshot(ctx, names, ser):
+    """Observable state of ONE context through its public interface only:
+    own-layer variables (keys() + own-layer reads) and, for every name in
+    `names`, the identities of the own-layer overloads and the exclusive
+    flag."""
+    data = {}
+    for k in ctx.keys():
+        v = ctx.get_data(k, None, False)
+        data[k] = (id(v), ser(v))
+    funcs = {}
+    # names registered since `names` was collected are found through the
+    # function table when it can be located; observation stays public
+    for n in sorted(set(names) | set(layer_functions(ctx)) |
+                    {'#finalize', '#iter'}):
+        fs, ex = ctx.get_functions(n)
+        if fs or ex:
+            funcs[n] = (frozenset(map(id, fs)), bool(ex))
+    return data, funcs
 
 
 SKIP_NAMES = ('#finalize', '#iter', '#get_context_data', 'assert', 'random',
